@@ -78,6 +78,7 @@ class VGen(H.Gen):
     def __init__(self, rng, open_mode=False):
         super().__init__(rng, W_VISS, nsig=(4, 8), allow_expiry=False, plain_meta=0.55)
         self.vsubs = 0
+        self.slash = []
         self.open_mode = open_mode
 
     def setup(self):
@@ -90,6 +91,16 @@ class VGen(H.Gen):
                 n = l[2]
                 l[3 + n + 2] = 2                     # entry type: actuator
         self.sigs = [(s[0], s[1], s[2], 2 if L_is_act(L, s[1]) else s[3], s[4]) for s in self.sigs]
+        if r.random() < 0.4:
+            # a signal whose NAME contains a slash (legal in a path segment) beside the signal a slash-to-dot rewriting
+            # of the request path would hit instead
+            for nm in ("Vehicle.Test.Km/h", "Vehicle.Test.Km.h"):
+                t = r.choice([4, 4, 8, 1])
+                L.append([H.ADD, 0] + E.s(nm) + [t, r.randrange(3), 2, 0, 0, 0])
+                # known to the VISS operations only: as a PATTERN of the gRPC Get / Subscribe / ListMetadata requests a
+                # name with a slash is outside what Model/Glob.v translates (the glob form uses `/` as its separator)
+                self.slash.append((len(self.sigs) + len(self.slash), nm, t, 2, (None, None, None)))
+            L.append([H.DUMP])
 
     def tok(self):
         if self.open_mode:
@@ -110,6 +121,8 @@ class VGen(H.Gen):
 
     def path(self):
         r = self.rng
+        if self.slash and r.random() < 0.25:
+            return r.choice(self.slash)[1]
         if self.sigs and r.random() < 0.92:
             return r.choice(self.sigs)[1]
         return r.choice(["Vehicle.Unknown", "", "Vehicle", "Vehicle.*", "Vehicle..Speed"])
@@ -146,7 +159,8 @@ class VGen(H.Gen):
         if k == "vget":
             L.append([VGET] + self.tok() + E.s(self.path()))
         elif k == "vset":
-            sig = r.choice(self.sigs) if self.sigs and r.random() < 0.95 else None
+            sig = r.choice(self.slash) if self.slash and r.random() < 0.2 else \
+                r.choice(self.sigs) if self.sigs and r.random() < 0.95 else None
             path = sig[1] if sig else self.path()
             x = self.text_for(sig) if sig else "5"
             L.append([VSET] + self.tok() + E.s(path) + text_tokens(x))
